@@ -3,9 +3,9 @@
 # for use while /repo itself is busy.  The checkout is restored afterwards.
 COPY=${COPY:-/tmp/repo_head}
 S=$1; shift
-git -C $COPY apply /verif/seeded/$S/patch.diff 2>/dev/null || { echo "$S: patch failed"; exit 3; }
+git -C $COPY apply ${SEEDS:-/verif/seeded}/$S/patch.diff 2>/dev/null || { echo "$S: patch failed"; exit 3; }
 for p in "$@"; do
-  REPO=$COPY /verif/check $p > /tmp/seedc_$p.log 2>&1; rc=$?
+  REPO=$COPY $(dirname $0)/../check $p > /tmp/seedc_$p.log 2>&1; rc=$?
   echo "seed=$S prop=$p exit=$rc : $(grep -c '^VIOLATION' /tmp/seedc_$p.log) violation line(s); $(tail -1 /tmp/seedc_$p.log)"
   grep -m2 'failing obligation' /tmp/seedc_$p.log | cut -c1-240
 done
